@@ -9,7 +9,7 @@ methods over the DBus bus.
 from twisted.internet import defer, reactor
 from twisted.internet.error import ConnectError
 from twisted.internet.protocol import Factory
-from twisted.python import log
+from twisted.python import failure, log
 
 import txdbus.protocol
 from txdbus import (
@@ -81,6 +81,14 @@ class DBusClientConnection (txdbus.protocol.BasicDBusProtocol):
         """
         Called in reply to the initial Hello remote method invocation
         """
+        if busName is None:
+            # A Hello reply without a body carries no bus name: the connection
+            # is not registered (and connectionLost treats busName None as
+            # "never ready"), so this is a failed attempt, not a connection.
+            self.factory._failed(failure.Failure(error.RemoteError(
+                'org.freedesktop.DBus.Error.Failed: Hello reply without a bus name')))
+            return
+
         self.busName = busName
 
         # print 'Connection Bus Name = ', self.busName
